@@ -37,7 +37,7 @@ def run(ctx):
     vlib.tlc_model(ctx, "SampleBuilder", "SampleBuilder_Abstract" + q, workers=6)
     # 2. the ring-buffer algorithm as it is, transcribed (modulus 16): ContiguousSameTs, StartsAtHead and
     #    completeness hold on every explored session; TLC prints one example per failure class of the others
-    res = vlib.tlc_model(ctx, "SampleBuilder", "SampleBuilder_Ring" + q, workers=6)
+    res = vlib.tlc_model(ctx, "SampleBuilder", "SampleBuilder_Ring" + q, workers=8)
     classes = {}
     for v in res.tag("VERIF_CLASS"):
         v = v[0]
@@ -78,7 +78,7 @@ def run(ctx):
     if not conf:
         raise vlib.NoVerdict("the exhaustive run printed no finished session")
     # 3. the same algorithm with the three named repairs satisfies all five predicates (same bounds)
-    vlib.tlc_model(ctx, "SampleBuilder", "SampleBuilder_RingABC" + q, workers=6)
+    vlib.tlc_model(ctx, "SampleBuilder", "SampleBuilder_RingABC" + q, workers=8)
     if not quick:
         vlib.tlc_model(ctx, "SampleBuilder", "SampleBuilder_RingABCQ", workers=6)   # incl. the eager receiver
     # 4. as is, one purgeBuffers call can iterate over the whole ring (filled.head overtakes filled.tail)
@@ -125,14 +125,14 @@ def run(ctx):
     vlib.go_run(ctx, binary, "TestVerifSampleBuilder", infile, trace, timeout=1500)
 
     # 5b. conformance of the transcription: ALL finished sessions of the exhaustive run are replayed and pion's
-    #     (a seeded subset of 30 000 when there are more) output is compared with the model's prediction.  A difference is model drift (reported in the
+    #     (a seeded subset of 20 000 when there are more) output is compared with the model's prediction.  A difference is model drift (reported in the
     #     evidence), never a verdict: verdicts come from the normative predicates only.
     ctx.cov["exhaustive_sessions_enumerated"] = len(conf)
     # seeded subset when there are many; sessions with WithMaxTimeDelay are kept few because Flush can take about
     # a second on them (it walks the whole 16-bit ring, see the model's ModelFilledSane); the numbers replayed are
     # stated in the evidence
-    slow = [c for c in sub if c["delay"] > 0][:300]
-    conf = [c for c in sub if c["delay"] == 0][:30000] + slow
+    slow = [c for c in sub if c["delay"] > 0][:150]
+    conf = [c for c in sub if c["delay"] == 0][:20000] + slow
     ctx.cov["conformance_sessions_with_time_delay"] = len(slow)
     for i, c in enumerate(conf):
         c["id"] = i
